@@ -50,7 +50,7 @@ func solverArgv(name string, timeoutMs int) []string {
 	}
 }
 
-func NewSolver(tb *TB, name string, timeoutMs int, transcript string) (*Solver, error) {
+func NewSolver(tb *TB, name string, timeoutMs int, transcript string, logic string) (*Solver, error) {
 	argv := solverArgv(name, timeoutMs)
 	cmd := exec.Command(argv[0], argv[1:]...)
 	stdin, err := cmd.StdinPipe()
@@ -76,7 +76,10 @@ func NewSolver(tb *TB, name string, timeoutMs int, transcript string) (*Solver, 
 	}
 	s.send("(set-option :global-declarations true)")
 	s.send("(set-option :produce-models true)")
-	s.send("(set-logic ALL)")
+	if logic == "" {
+		logic = "QF_AUFBV"
+	}
+	s.send("(set-logic " + logic + ")")
 	return s, nil
 }
 
